@@ -295,7 +295,7 @@ Proof. vm_compute. split; reflexivity. Qed.
    u is a solution (the right-hand side is A u), so [vsub u x] is the error of the iterate x.
    Damping 1 (p_damping prm = 1) as in the property text.  [rich_iter] is the textbook iteration of
    KrylovRef.v, [richardson] the workspace model of amgcl/solver/richardson.hpp that the correspondence
-   check ties to the C++ (C05_richardson_is_kfold: the model returns rich_iter after k_it steps). *)
+   check ties to the C++ (C05_richardson_is_kfold_iteration: the model returns rich_iter after k_it steps). *)
 From Amgcl Require Import AmgOrder KrylovRate.
 
 (* contraction by delta in the energy norm  ==>  energy of the error <= delta^(2k) * initial energy *)
@@ -385,6 +385,32 @@ Proof.
            richardson_amg_strict Srt Seqb Ord k nc pc lvls Hd Hs Hl WA SA O1 O2 O3 prm u x0 junk nr r w).
 Qed.
 Print Assumptions C01_richardson_amg_strict.
+
+(* hierarchies BUILT by the model (amg_init, Galerkin coarse operator, standard smoothers, exact coarse solve)
+   under the hypotheses of C02_built_contracts_wdd (ordered field; descs_ok: every level satisfies the
+   condition of its smoother kind) and the side conditions of C02_apply_linear_built *)
+From Amgcl Require Import MatOps DenseSolve AmgExec AmgProofs3 AmgProofs5 AmgProofs12 AmgSmooth3 KrylovRateBuilt.
+Theorem C01_richardson_built_amg_strict (S : Scalar) (Sft : Sfield S) (Seqb : seqb_spec S) (Ord : ordered S)
+  (Habs2 : forall v : S, sabs v * sabs v = v * v) kd ce dc ml ts (M : crs S) k nc pc :
+  let ls := amg_init ce dc ml (@galerkin S) ts M in
+  descs_ok kd ls -> top_strict_desc kd ls -> top_smoothed ls ->
+  wf M = true -> ts_wf (nrows M) ts ->
+  (forall A, In (LSolve A) ls -> ncols A = nrows A /\ solvable A = true) ->
+  let lvls := std_levels kd ls in
+  let n := nrows M in
+  let A := mat_op (sort_rows M) in
+  let B := amg_B (Datatypes.S k) (Datatypes.S k) (Datatypes.S nc) (Datatypes.S pc) lvls in
+  forall prm (u x0 : vec S) junk nr r w,
+  length u = n -> length x0 = n -> p_damping prm = s1 ->
+  k_prologue norm_a prm (A u) = Go nr ->
+  richardson A B prm (A u) x0 junk = (KOk r, w) ->
+  forall i, k_it r = Datatypes.S i ->
+  A (vsub u (rich_iter A B s1 (A u) i x0)) <> vzero n ->
+  forall j, j <= i ->
+  olt (qA n (sort_rows M) (vsub u (k_x r)) (vsub u (k_x r)))
+      (qA n (sort_rows M) (vsub u (rich_iter A B s1 (A u) j x0)) (vsub u (rich_iter A B s1 (A u) j x0))).
+Proof. exact (richardson_built_amg_strict Sft Seqb Ord Habs2 kd ce dc ml ts M k nc pc). Qed.
+Print Assumptions C01_richardson_built_amg_strict.
 
 (* a checkable certificate for an EXPLICIT contraction factor of a linear map T given as a function:
    the matrix of T (checked on the unit vectors) and an L^T D L factorisation of d2 M - T^T M T, D >= 0 *)
